@@ -238,15 +238,52 @@ def run(ctx):
                          ('receiver', ('R', 'R', 'midpoint')),
                          ('cylinder', ('S', 'R', 'cylinder')),
                          ('midpoint', ('S', 'R', 'midpoint'))):
-        fe = FiniteEval({gps[0]: method, f'{gps[1]}.center[:2]': 'S',
-                         f'{gps[2]}.center[:2]': 'R'}, where=mp.rel)
-        r = fe.call(gp)
-        got = (r.get('p0'), r.get('p1'), r.get('method')) if isinstance(
-            r, dict) else None
-        ctx.check('C19.L4.points', f'_get_points method={method}',
-                  got == want, f'points/method are {got}, documented {want}',
-                  ctx.where(mp, gp), sample={'method': method,
-                                             'result': list(got or [])})
+        for relative in (False, True):
+            # 'r' = position as given, 'R' = absolute position
+            fe = FiniteEval({
+                gps[0]: method, f'{gps[1]}.center[:2]': 'S',
+                f'{gps[2]}.center[:2]': 'r' if relative else 'R',
+                f'{gps[2]}.center_abs({gps[1]})[:2]': 'R',
+                f"getattr({gps[2]}, 'relative', False)": relative,
+                f'{gps[2]}.relative': relative}, where=mp.rel)
+            r = fe.call(gp)
+            got = (r.get('p0'), r.get('p1'), r.get('method')) if isinstance(
+                r, dict) else None
+            ctx.check('C19.L4.points', f'_get_points method={method} '
+                      f'relative={relative}', got == want,
+                      f'points/method are {got}, documented {want} (S: source '
+                      'centre, R: absolute receiver centre, r: receiver '
+                      'position as given)', ctx.where(mp, gp),
+                      sample={'method': method, 'relative': relative,
+                              'result': list(got or [])})
+    # receivers may be given relative to the source: every position of a
+    # receiver used by the layered path is the absolute one (as in the 3D
+    # path, Survey._rec_types_coord), never the raw coordinates / centre
+    ly = mp.func('layered')
+    rl = find('for _i_, (_k_, _r_) in enumerate(_recs_.items()):\n    __', ly)
+    ctx.anchor(len(rl) == 1, 'receiver loop in layered()')
+    rv = rl[0][1]['_r_']
+    sv = find("_s_ = _inp_['src']", ly)
+    ctx.anchor(len(sv) == 1, 'source in layered()')
+    sname = sv[0][1]['_s_']
+    for fn_, R, S in ((ly, rv, sname),):
+        raw = [n for n in ast.walk(fn_) if isinstance(n, ast.Attribute) and
+               isinstance(n.value, ast.Name) and n.value.id == R and
+               n.attr in ('coordinates', 'center', 'points')]
+        ctx.check('C19.L3.absolute', f'{fn_.name}: receiver position is '
+                  'absolute', not raw, f'`{ast.unparse(raw[0]) if raw else ""}`'
+                  ' is the position as given; for relative=True receivers it '
+                  'is an offset from the source and the 1D response / '
+                  f'extraction point must use {R}.coordinates_abs({S}) / '
+                  f'{R}.center_abs({S})', ctx.where(mp, raw[0] if raw else fn_))
+    ctx.check('C19.L3.absolute', 'layered: receiver handed to empymod',
+              has(f"{{__: __, 'rec': {rv}.coordinates_abs({sname})}}", ly) or
+              any(isinstance(d, ast.Dict) and any(
+                  isinstance(k, ast.Constant) and k.value == 'rec' and
+                  ast.unparse(v) == f'{rv}.coordinates_abs({sname})'
+                  for k, v in zip(d.keys, d.values)) for d in ast.walk(ly)),
+              "the 'rec' entry of the empymod input is not the absolute "
+              'receiver coordinate', ctx.where(mp, ly))
     fd = mp.func('_fd_gradient')
     fp = au.params(fd)
     q = find('_g_[_k_] = (_fdm_ - ' + fp[4] + ') / _delta_', fd)
@@ -269,4 +306,4 @@ def run(ctx):
               'weights', has(f'return {fp[6]}[..., None] * _g_[None, :]', fd),
               'layer gradient is not distributed to the cells by imat',
               ctx.where(mp, fd))
-    ctx.floor('C19.L4.points', 4)
+    ctx.floor('C19.L4.points', 8)
